@@ -144,6 +144,10 @@ def _outcome(world, info, parent, args):
     if args and isinstance(args.get("step"), int) and isinstance(v, int):
         v = v * args["step"]
     world.counter += 1
+    if o == "as-tuple" and isinstance(v, list):
+        return tuple(v)
+    if o == "as-gen" and isinstance(v, list):
+        return (x for x in v)
     return v
 
 
@@ -225,8 +229,20 @@ async def _shared_async(parent, ctx, info, **args):
 _SCHEMAS = {}
 
 
+def _generic_default(parent, ctx, info, **args):
+    """schema-level default resolver: used for every field without its own resolver (never wrapped by the runtime)"""
+    if info.parent_type.name.startswith("__") or not hasattr(ctx, "ev"):
+        from py_gql.execution import default_resolver as _dr
+
+        return _dr(parent, ctx, info, **args)
+    ctx.ev("invoke", pstr(info.path))
+    return _outcome(ctx, info, parent, args)
+
+
 def schema_for(custom, asyncio_styles, sdl="full"):
-    key = (json.dumps(custom, sort_keys=True), asyncio_styles, sdl)
+    sdl, _, opts = sdl.partition("+")
+    sdl_opts = set(filter(None, opts.split("+")))
+    key = (json.dumps(custom, sort_keys=True), asyncio_styles, sdl, tuple(sorted(sdl_opts)))
     s = _SCHEMAS.get(key)
     if s is None:
         s = build_schema(SDLS[sdl])
@@ -247,6 +263,10 @@ def schema_for(custom, asyncio_styles, sdl="full"):
         for tname in ("Node", "U"):
             if tname in s.types:
                 s.types[tname].resolve_type = _resolve_type
+        if "type-default" in sdl_opts:
+            s.register_default_resolver("Obj", _shared_sync)
+        if "schema-default" in sdl_opts:
+            s.default_resolver = _generic_default
         s.validate()
         _SCHEMAS[key] = s
     return s
@@ -255,7 +275,10 @@ def schema_for(custom, asyncio_styles, sdl="full"):
 def _resolve_type(value, ctx, info):
     if getattr(ctx, "overrides", None) and ctx.overrides.get(pstr(info.path)) == "type-err":
         raise ResolverError("T@" + pstr(info.path))
-    return value.get("__typename__") if isinstance(value, dict) else None
+    name = value.get("__typename__") if isinstance(value, dict) else getattr(value, "__typename__", None)
+    if info.field_definition.name == "u" and name is not None:
+        return info.schema.types[name]  # an ObjectType instead of its name: both are documented answers
+    return name
 
 
 class RootMethods:
@@ -462,6 +485,31 @@ def run_config(config, scn, ch, document=None, fast=False):
             status, value = pool.drive(final, ch)
         extra["callback_errors"] = len(pool.callback_errors)
         extra["trace"] = pool.trace
+    elif config == "entry-blocking":
+        from py_gql import graphql_blocking
+
+        schema = schema_for(custom, False, scn.get("sdl", "full"))
+        kw = {k_: v_ for k_, v_ in kwargs.items() if k_ != "runtime"}
+        try:
+            status, value = "ok", graphql_blocking(schema, doc, **kw)
+        except Exception as e:  # noqa
+            status, value = "exc", e
+    elif config == "entry-graphql":
+        from py_gql import graphql as graphql_async
+
+        schema = schema_for(custom, True, scn.get("sdl", "full"))
+        loop = VLoop()
+        world.loop = loop
+        kw = {k_: v_ for k_, v_ in kwargs.items() if k_ != "runtime"}
+
+        async def main2():
+            return await graphql_async(schema, doc, **kw)
+
+        try:
+            status, value = loop.drive(main2(), ch)
+        finally:
+            loop.finish()
+        extra["trace"] = loop.trace
     else:
         raise ValueError(config)
     return observe(status, value, world, extra), world
